@@ -14,6 +14,13 @@
 //	signing) of one thread may stall for as long as anything else can happen:
 //	requests that do not need that token must be answered meanwhile;
 //
+//	server.numworkers set with the in-process token and requests that fail
+//	while their key is prepared before / among valid ones: every valid request
+//	is answered as in isolation (one that never returns is ended by the harness
+//	at quiescence and reported as never answered); every system call on the
+//	audit file (vos emulates *os.File incl. Seek/ReadAt/WriteAt/SyscallConn) is
+//	a scheduling point;
+//
 // (b) the same thread bodies run free (real goroutines, real sync) under the
 //
 //	race detector (separate binary .build/bin/c14race built by pre.sh);
@@ -81,6 +88,13 @@ type op struct {
 	// Client: which configured client sends the request ("" = the default client
 	// holding role r; see clients).
 	Client string
+	// SigType: signature type asked for ("" = ps).
+	SigType string
+	// Refused: why this sign request cannot be served whatever else goes on (the
+	// key has no certificate of the kind the signature type needs, its certificate
+	// file is missing): it is refused in isolation and must be refused the same way
+	// in company - and must not change what any other request gets.
+	Refused string
 }
 
 // client is one caller identity: a certificate (known to the server by the
@@ -171,6 +185,9 @@ func (o op) String() string {
 	}
 	switch o.Kind {
 	case "sign":
+		if o.SigType != "" {
+			who = "[" + o.SigType + "]" + who
+		}
 		return fmt.Sprintf("sign(%s,%s,%s,%q)%s", o.Name, o.Key, o.Digest, o.Desc, who)
 	case "keyinfo":
 		return "keyinfo(" + o.Key + ")" + who
@@ -189,8 +206,12 @@ func (o op) request() *http.Request {
 		q := url.Values{}
 		q.Set("key", o.Key)
 		q.Set("filename", o.Name)
-		q.Set("sigtype", "ps")
-		q.Set("ps-style", ".ps1")
+		if o.SigType != "" {
+			q.Set("sigtype", o.SigType)
+		} else {
+			q.Set("sigtype", "ps")
+			q.Set("ps-style", ".ps1")
+		}
 		q.Set("digest", o.Digest)
 		if o.Desc != "" {
 			q.Set("description", o.Desc)
@@ -233,6 +254,13 @@ var rateLimited bool
 // twoTokens: the configuration has a second token (tok2) serving key t2key
 var twoTokens bool
 
+// numWorkers: server.numworkers of the scenario's configuration (0 = not set)
+var numWorkers int
+
+// missingCert: the configuration has a key (nocert) whose certificate file does
+// not exist - a deployment mistake that shows only when the key is asked for
+var missingCert bool
+
 func fingerprintOf(c *x509.Certificate) string {
 	d := sha256.Sum256(c.RawSubjectPublicKeyInfo)
 	return hex.EncodeToString(d[:])
@@ -269,6 +297,11 @@ func mkConfig(audit string) *config.Config {
 		cfg.Keys["t2key"] = mk("p384", "r")
 		cfg.Keys["t2key"].Token = "tok2"
 	}
+	if missingCert {
+		cfg.Keys["nocert"] = mk("rsaB", "r")
+		cfg.Keys["nocert"].X509Certificate = filepath.Join(relicx.KeyDir, "no-such-file.chain.crt")
+	}
+	cfg.Server.NumWorkers = numWorkers
 	cfg.Server.TokenCacheSeconds = 600
 	if rateLimited {
 		// a limit far above anything the scenario can reach: the limiter is in
@@ -313,7 +346,13 @@ func perform(srv *server.Server, h http.Handler, o op) outcome {
 	// as in net/http, a request's context ends when its handler returns
 	req := o.request()
 	rctx, done := context.WithCancel(req.Context())
+	if hook := inFlight; hook != nil {
+		hook(o, done, true)
+	}
 	h.ServeHTTP(w, req.WithContext(rctx))
+	if hook := inFlight; hook != nil {
+		hook(o, done, false)
+	}
 	done()
 	body := rec.Body.Bytes()
 	if rec.Header().Get("Content-Encoding") == "gzip" {
@@ -331,6 +370,11 @@ func perform(srv *server.Server, h http.Handler, o op) outcome {
 	}
 	return outcome{Op: o, Status: rec.Code, Body: body}
 }
+
+// inFlight, when set, is told when a request enters and leaves the server, with
+// the function that ends the request's context (what net/http does when the
+// client's connection goes away).
+var inFlight func(o op, hangUp context.CancelFunc, entering bool)
 
 var verifyMu sync.Mutex
 var scratch string
@@ -384,6 +428,10 @@ type scenario struct {
 	// happen any more - a slow HSM, a KMS call that runs into its timeout. Whatever
 	// is then still waiting has waited for the token.
 	Stall *stall
+	// NumWorkers: server.numworkers (0 = not set, the default); MissingCert: the
+	// configuration has key nocert whose certificate file does not exist.
+	NumWorkers  int
+	MissingCert bool
 }
 
 type stall struct {
@@ -432,48 +480,80 @@ func scenarios(thorough bool) []scenario {
 	sT2 := op{Kind: "sign", Name: "t2.ps1", Key: "t2key", Digest: "sha256"}
 	lst := op{Kind: "list"}
 	sc := []scenario{
-		{"two-keys", [][]op{{sA}, {sB}}, nil},
-		{"same-key-cache-contention", [][]op{{sA}, {sA2}}, nil},
-		{"alias-and-direct", [][]op{{sAl}, {sA2}}, nil},
-		{"sign-list-keyinfo", [][]op{{sA}, {{Kind: "list"}, {Kind: "keyinfo", Key: "p256A"}}}, nil},
-		{"sign-healthcheck-health", [][]op{{sB}, {{Kind: "healthcheck"}, {Kind: "health"}}}, nil},
-		{"cache-expiry-between-signs", [][]op{{sA, sA2}, {{Kind: "expire"}, sAl}}, nil},
+		{"two-keys", [][]op{{sA}, {sB}}, nil, 0, false},
+		{"same-key-cache-contention", [][]op{{sA}, {sA2}}, nil, 0, false},
+		{"alias-and-direct", [][]op{{sAl}, {sA2}}, nil, 0, false},
+		{"sign-list-keyinfo", [][]op{{sA}, {{Kind: "list"}, {Kind: "keyinfo", Key: "p256A"}}}, nil, 0, false},
+		{"sign-healthcheck-health", [][]op{{sB}, {{Kind: "healthcheck"}, {Kind: "health"}}}, nil, 0, false},
+		{"cache-expiry-between-signs", [][]op{{sA, sA2}, {{Kind: "expire"}, sAl}}, nil, 0, false},
 		// Close is issued once (the daemon guarantees that); a second Close after
 		// the first has returned must be harmless
-		{"close-during-healthcheck", [][]op{{{Kind: "close"}, {Kind: "close"}}, {{Kind: "healthcheck"}}, {{Kind: "health"}}}, nil},
-		{"three-signers", [][]op{{sA}, {sB}, {sA2}}, nil},
+		{"close-during-healthcheck", [][]op{{{Kind: "close"}, {Kind: "close"}}, {{Kind: "healthcheck"}}, {{Kind: "health"}}}, nil, 0, false},
+		{"three-signers", [][]op{{sA}, {sB}, {sA2}}, nil, 0, false},
 		// one client goes away while its request is somewhere inside the server: the
 		// other request for the same key must not notice
-		{"same-key-one-client-hangs-up", [][]op{{sLeave}, {sA2}, {{Kind: "hangup", Target: sLeave.Name}}}, nil},
+		{"same-key-one-client-hangs-up", [][]op{{sLeave}, {sA2}, {{Kind: "hangup", Target: sLeave.Name}}}, nil, 0, false},
 		// clients that take gzip responses: one response completes, then two overlap
 		// tokens.<name>.ratelimit configured: the limiter hands out the key objects
 		// the cache keeps; a later request gets the object an earlier, finished or
 		// abandoned request fetched
-		{"rate-limited-key-reused-after-request-ended", [][]op{{sA, sA2}, {sB}}, nil},
-		{"rate-limited-same-key-one-client-hangs-up", [][]op{{sLeave}, {sA2}, {{Kind: "hangup", Target: sLeave.Name}}}, nil},
-		{"gzip-responses-overlap-after-an-earlier-one", [][]op{{gz(sA, "g1.ps1"), gz(sB, "g2.ps1")}, {gz(sA2, "g3.ps1")}}, nil},
+		{"rate-limited-key-reused-after-request-ended", [][]op{{sA, sA2}, {sB}}, nil, 0, false},
+		{"rate-limited-same-key-one-client-hangs-up", [][]op{{sLeave}, {sA2}, {{Kind: "hangup", Target: sLeave.Name}}}, nil, 0, false},
+		{"gzip-responses-overlap-after-an-earlier-one", [][]op{{gz(sA, "g1.ps1"), gz(sB, "g2.ps1")}, {gz(sA2, "g3.ps1")}}, nil, 0, false},
 		// clients with different role sets on one server, overlapping
-		{"clients-listings-overlap", [][]op{{by("rel", lst), by("night", lst)}, {by("both", lst), lst}, {by("norole", lst)}}, nil},
+		{"clients-listings-overlap", [][]op{{by("rel", lst), by("night", lst)}, {by("both", lst), lst}, {by("norole", lst)}}, nil, 0, false},
 		{"clients-sign-keyinfo-list-overlap", [][]op{
 			{by("rel", op{Kind: "sign", Name: "rel.ps1", Key: "aliasA", Digest: "sha256"}), by("rel", op{Kind: "keyinfo", Key: "nightonly"}), by("rel", lst)},
-			{by("night", op{Kind: "sign", Name: "night.ps1", Key: "aliasNight", Digest: "sha384", Desc: "opus-night"}), by("night", lst), by("both", op{Kind: "keyinfo", Key: "relonly"})}}, nil},
+			{by("night", op{Kind: "sign", Name: "night.ps1", Key: "aliasNight", Digest: "sha384", Desc: "opus-night"}), by("night", lst), by("both", op{Kind: "keyinfo", Key: "relonly"})}}, nil, 0, false},
 		// a token operation of one request stalls; what needs no token (or another
 		// token) is answered meanwhile
-		{"stalled-ping", [][]op{{{Kind: "healthcheck"}}, {{Kind: "health"}, lst, {Kind: "home"}}}, &stall{"ping", "", "tok"}},
-		{"stalled-getkey", [][]op{{sA}, {{Kind: "health"}, by("night", lst), sB}}, &stall{"getkey", "rsaA", "tok"}},
-		{"stalled-sign", [][]op{{sA}, {lst, {Kind: "health"}, {Kind: "keyinfo", Key: "p256A"}}}, &stall{"sign", "rsaA", "tok"}},
-		{"two-tokens-stalled-getkey", [][]op{{sA}, {sT2, {Kind: "keyinfo", Key: "t2key"}, {Kind: "health"}}}, &stall{"getkey", "rsaA", "tok"}},
-		{"two-tokens-stalled-sign-on-the-other-token", [][]op{{sT2}, {sA, lst}}, &stall{"sign", "t2key", "tok2"}},
+		{"stalled-ping", [][]op{{{Kind: "healthcheck"}}, {{Kind: "health"}, lst, {Kind: "home"}}}, &stall{"ping", "", "tok"}, 0, false},
+		{"stalled-getkey", [][]op{{sA}, {{Kind: "health"}, by("night", lst), sB}}, &stall{"getkey", "rsaA", "tok"}, 0, false},
+		{"stalled-sign", [][]op{{sA}, {lst, {Kind: "health"}, {Kind: "keyinfo", Key: "p256A"}}}, &stall{"sign", "rsaA", "tok"}, 0, false},
+		{"two-tokens-stalled-getkey", [][]op{{sA}, {sT2, {Kind: "keyinfo", Key: "t2key"}, {Kind: "health"}}}, &stall{"getkey", "rsaA", "tok"}, 0, false},
+		{"two-tokens-stalled-sign-on-the-other-token", [][]op{{sT2}, {sA, lst}}, &stall{"sign", "t2key", "tok2"}, 0, false},
+	}
+	// server.numworkers set on a server with an in-process token, and requests
+	// that cannot be served (they fail while the key and its certificates are
+	// prepared: the key has no certificate of the kind the signature type needs,
+	// the key's certificate file is missing) before and among requests that can:
+	// numworkers of the former, then a valid one; and two threads that each send a
+	// refused request followed by a valid one
+	noPgp := func(name string) op {
+		return op{Kind: "sign", Name: name, Key: "p256A", Digest: "sha256", SigType: "pgp", Refused: "key p256A has no PGP certificate"}
+	}
+	noCert := func(name string) op {
+		return op{Kind: "sign", Name: name, Key: "nocert", Digest: "sha256", Refused: "the certificate file of key nocert does not exist"}
+	}
+	for _, nw := range []int{1, 2} {
+		for _, k := range []struct {
+			name string
+			mk   func(string) op
+		}{{"no-pgp-certificate", noPgp}, {"certificate-file-missing", noCert}} {
+			var seq []op
+			for i := 1; i <= nw; i++ {
+				seq = append(seq, k.mk(fmt.Sprintf("refused%d.ps1", i)))
+			}
+			seq = append(seq, sA, sB)
+			sc = append(sc, scenario{Name: fmt.Sprintf("numworkers-%d-%s-then-valid", nw, k.name), Threads: [][]op{seq}, NumWorkers: nw, MissingCert: true})
+		}
+		sc = append(sc, scenario{Name: fmt.Sprintf("numworkers-%d-refused-and-valid-overlap", nw),
+			Threads: [][]op{{noPgp("refused1.ps1"), sA}, {noCert("refused2.ps1"), sB}}, NumWorkers: nw, MissingCert: true})
 	}
 	if thorough {
 		sc = append(sc,
-			scenario{"three-mixed", [][]op{{sA, {Kind: "list"}}, {sB}, {{Kind: "healthcheck"}, {Kind: "health"}}}, nil},
-			scenario{"two-requests-each", [][]op{{sA, sB}, {sA2, sAl}}, nil},
-			scenario{"other-key-one-client-hangs-up", [][]op{{sLeave, {Kind: "list"}}, {sB}, {{Kind: "hangup", Target: sLeave.Name}}}, nil},
-			scenario{"stalled-ping-three-threads", [][]op{{{Kind: "healthcheck"}}, {{Kind: "health"}, sB}, {by("night", lst), {Kind: "health"}}}, &stall{"ping", "", "tok"}},
-			scenario{"stalled-getkey-three-threads", [][]op{{sA}, {{Kind: "health"}, {Kind: "home"}}, {by("rel", lst), sA2}}, &stall{"getkey", "rsaA", "tok"}},
-			scenario{"two-tokens-stalled-getkey-on-the-other-token", [][]op{{sT2}, {sA, {Kind: "keyinfo", Key: "p256A"}, lst}}, &stall{"getkey", "t2key", "tok2"}},
-			scenario{"expired-cache-one-client-hangs-up", [][]op{{sA, {Kind: "expire"}, sLeave}, {sA2}, {{Kind: "hangup", Target: sLeave.Name}}}, nil},
+			scenario{Name: "numworkers-1-two-valid-overlap", Threads: [][]op{{sA}, {sA2}}, NumWorkers: 1},
+			scenario{Name: "numworkers-2-three-refused-and-valid-overlap", Threads: [][]op{{noPgp("refused1.ps1"), sA}, {noCert("refused2.ps1"), sB}, {noPgp("refused3.ps1"), sA2}}, NumWorkers: 2, MissingCert: true})
+	}
+	if thorough {
+		sc = append(sc,
+			scenario{"three-mixed", [][]op{{sA, {Kind: "list"}}, {sB}, {{Kind: "healthcheck"}, {Kind: "health"}}}, nil, 0, false},
+			scenario{"two-requests-each", [][]op{{sA, sB}, {sA2, sAl}}, nil, 0, false},
+			scenario{"other-key-one-client-hangs-up", [][]op{{sLeave, {Kind: "list"}}, {sB}, {{Kind: "hangup", Target: sLeave.Name}}}, nil, 0, false},
+			scenario{"stalled-ping-three-threads", [][]op{{{Kind: "healthcheck"}}, {{Kind: "health"}, sB}, {by("night", lst), {Kind: "health"}}}, &stall{"ping", "", "tok"}, 0, false},
+			scenario{"stalled-getkey-three-threads", [][]op{{sA}, {{Kind: "health"}, {Kind: "home"}}, {by("rel", lst), sA2}}, &stall{"getkey", "rsaA", "tok"}, 0, false},
+			scenario{"two-tokens-stalled-getkey-on-the-other-token", [][]op{{sT2}, {sA, {Kind: "keyinfo", Key: "p256A"}, lst}}, &stall{"getkey", "t2key", "tok2"}, 0, false},
+			scenario{"expired-cache-one-client-hangs-up", [][]op{{sA, {Kind: "expire"}, sLeave}, {sA2}, {{Kind: "hangup", Target: sLeave.Name}}}, nil, 0, false},
 		)
 	}
 	return sc
@@ -505,7 +585,11 @@ var isoCache = map[string]outcome{}
 func configure(sc scenario) {
 	rateLimited = strings.HasPrefix(sc.Name, "rate-limited-")
 	twoTokens = strings.HasPrefix(sc.Name, "two-tokens-")
+	numWorkers = sc.NumWorkers
+	missingCert = sc.MissingCert
 }
+
+func resetConfigVariant() { rateLimited, twoTokens, numWorkers, missingCert = false, false, 0, false }
 
 // isolation runs every op alone on a fresh server: the expected responses.
 func isolation(sc scenario) map[string]outcome {
@@ -517,6 +601,9 @@ func isolation(sc scenario) map[string]outcome {
 				continue
 			}
 			ck := fmt.Sprintf("%v|%v|%s", rateLimited, twoTokens, o)
+			if numWorkers != 0 || missingCert {
+				ck = fmt.Sprintf("numworkers=%d|%v|%s", numWorkers, missingCert, ck)
+			}
 			if e, ok := isoCache[ck]; ok {
 				exp[o.String()] = e
 				continue
@@ -538,7 +625,12 @@ func isolation(sc scenario) map[string]outcome {
 				// a request that is answered 200 in isolation must be right in isolation;
 				// one that is refused (this client may not use this key, or is not known)
 				// must be refused the same way whatever else goes on
-				if e.Status == 200 {
+				if o.Refused != "" {
+					if e.Status == 200 {
+						fmt.Printf("HARNESS-ERROR: isolated request that cannot be served (%s) is answered 200: %s\n", o.Refused, o)
+						os.Exit(2)
+					}
+				} else if e.Status == 200 {
 					if why := checkSign(o, e); why != "" {
 						fmt.Println("HARNESS-ERROR: isolated request fails:", o, why)
 						os.Exit(2)
@@ -615,13 +707,23 @@ func runScenario(sc scenario, bound int, keyName string) scenarioStats {
 			gate     = new(int)
 			inflight = make([]*op, len(sc.Threads))
 		)
-		if sc.Stall != nil {
-			s.OnStuck = func() bool {
-				stMu.Lock()
-				defer stMu.Unlock()
-				if parked < 0 || gateOpen {
-					return false
-				}
+		// requests inside the server, and those the harness had to end itself
+		pending := map[string]context.CancelFunc{}
+		abandoned := map[string]bool{}
+		inFlight = func(o op, hangUp context.CancelFunc, entering bool) {
+			stMu.Lock()
+			defer stMu.Unlock()
+			if entering {
+				pending[o.String()] = hangUp
+			} else {
+				delete(pending, o.String())
+			}
+		}
+		defer func() { inFlight = nil }()
+		s.OnStuck = func() bool {
+			stMu.Lock()
+			defer stMu.Unlock()
+			if sc.Stall != nil && parked >= 0 && !gateOpen {
 				for i, o := range inflight {
 					if i != parked && o != nil {
 						waiting = append(waiting, *o)
@@ -631,6 +733,19 @@ func runScenario(sc scenario, bound int, keyName string) scenarioStats {
 				s.Unblock(gate)
 				return true
 			}
+			// No thread can take a step and nothing of the environment is outstanding:
+			// a request that is still inside the server waits for something that will
+			// never happen. Its client hangs up (once) so that the execution ends; the
+			// request is reported as never answered.
+			n := 0
+			for name, hangUp := range pending {
+				if !abandoned[name] {
+					abandoned[name] = true
+					hangUp()
+					n++
+				}
+			}
+			return n > 0
 		}
 		faketoken.S.Hook = func(call faketoken.Call) {
 			t := s.Me()
@@ -749,6 +864,16 @@ func runScenario(sc scenario, bound int, keyName string) scenarioStats {
 					}
 					run.Outcome(fmt.Sprintf("%s:%s by %s:%d", keyName, o.Kind, cl, e.Status))
 				}
+				stMu.Lock()
+				gaveUp := abandoned[o.String()]
+				stMu.Unlock()
+				if gaveUp {
+					run.Outcome("sched:" + keyName + ":request-never-answered")
+					run.Violation("sched:request-never-answered:"+o.Kind+":"+keyName,
+						fmt.Sprintf("%s: %s was still inside the server when no thread could take a step any more and nothing was outstanding (it waits for something no other request will ever do); the harness then ended its context like a client hanging up and it returned %d %.100s\n%s",
+							desc, o, out.Status, out.Body, strings.Join(s.Log, " ")), replay)
+					continue
+				}
 				switch o.Kind {
 				case "sign":
 					if o.Leaves && out.Status != 200 && strings.Contains(string(out.Body)+out.Extra, "cancel") || o.Leaves && out.Status == 499 {
@@ -759,6 +884,9 @@ func runScenario(sc scenario, bound int, keyName string) scenarioStats {
 					if has && e.Status != 200 {
 						// refused in isolation (the client's roles do not grant the key, or the
 						// client is not known): refused the same way here
+						if o.Refused != "" {
+							run.Outcome(fmt.Sprintf("sched:%s:refused in isolation (%s): %d", keyName, o.Refused, e.Status))
+						}
 						if out.Status != e.Status || !bytes.Equal(out.Body, e.Body) {
 							run.Violation("sched:response-differs-from-isolation:refused-sign:"+keyName, fmt.Sprintf("%s: %s: got %d %.100s want %d %.100s", desc, o, out.Status, out.Body, e.Status, e.Body), replay)
 						}
@@ -808,7 +936,7 @@ func runScenario(sc scenario, bound int, keyName string) scenarioStats {
 }
 
 func schedPhase() {
-	defer func() { rateLimited, twoTokens = false, false }()
+	defer resetConfigVariant()
 	for _, sc := range scenarios(run.Thorough()) {
 		bound := 2
 		if run.Thorough() && len(sc.Threads) < 3 {
@@ -851,7 +979,7 @@ func clientAlphabet() []op {
 // issued one after the other against one server; each response must be the one
 // the same request gets alone on a fresh server.
 func clientHistories() {
-	defer func() { rateLimited, twoTokens = false, false }()
+	defer resetConfigVariant()
 	alpha := clientAlphabet()
 	depth := 2
 	if run.Thorough() {
@@ -944,6 +1072,7 @@ func racePass() {
 	faketoken.Reset()
 	audit := filepath.Join(dir, "audit.log")
 	twoTokens = true // the one server of this pass serves every scenario's keys
+	missingCert = true
 	cfg := mkConfig(audit)
 	relicx.Use(cfg)
 	srv, err := server.New(cfg)
@@ -969,7 +1098,11 @@ func racePass() {
 							continue // real clock in this pass
 						}
 						out := perform(srv, h, o)
-						if o.Kind == "sign" {
+						if o.Kind == "sign" && o.Refused != "" {
+							if out.Status == 200 {
+								fmt.Printf("RACEPASS-MISMATCH scenario=%s %s: answered 200 although %s\n", sc.Name, o, o.Refused)
+							}
+						} else if o.Kind == "sign" {
 							if why := checkSign(o, out); why != "" {
 								fmt.Printf("RACEPASS-MISMATCH scenario=%s %s: %s\n", sc.Name, o, why)
 							}
@@ -1188,8 +1321,9 @@ func main() {
 		run.Capped(fmt.Sprintf("race pass did not complete: %v", rerr))
 	}
 	_ = context.Background
-	run.Rule("(a) for each of 19 (thorough 26) scenarios of 2-3 threads (sign with two keys, same key, alias, list/keyinfo, health check + /health, key-cache expiry between signs, Close (then Close again) during a health check and /health, three signers, a client hanging up, rate-limited tokens, gzip responses; requests by clients with different role sets (r, rel, night, rel+night, a role no key lists) over keys with different role lists overlapping; and 5 (thorough 8) scenarios in which the first token.ping / token.getkey(key) / token.sign(key) reached does not return until no thread can take a step any more, on one token or with a second token configured): every interleaving with <=2 preemptions (thorough 3 for 2-thread scenarios) over the hooked mutex/token/audit-file operations; oracle per request = result in isolation (patch applied to that request's body verifies, names its key, digest and description; a refused request is refused with the same status and body; listings, key info, home byte-equal), audit lines = successful signs with the signing client's name, and in the stall scenarios: a request that needs no token (health, list_keys, home) or only the other token must not be among the requests that are still waiting when nothing but the stalled token operation is left to finish; (a') every history of <=2 (thorough <=3, without signing at depth 3) requests from the alphabet {list_keys, key info of a key granted to r+rel, key info of a key granted to night only, sign with a key granted to r+rel+night} x 6 clients (the five role sets and a certificate the server does not know) issued sequentially against one server, same oracle; (b) free-running -race pass over all scenarios' thread bodies; (c) daemon.Close released at 2 hooked points of an in-flight request on a real loopback daemon. distinct_nontrivial = schedules with at least one preemption, and histories with at least two different clients")
+	run.Rule("(a) for each of 25 (thorough 34) scenarios of 1-3 threads (sign with two keys, same key, alias, list/keyinfo, health check + /health, key-cache expiry between signs, Close (then Close again) during a health check and /health, three signers, a client hanging up, rate-limited tokens, gzip responses; requests by clients with different role sets (r, rel, night, rel+night, a role no key lists) over keys with different role lists overlapping; and 5 (thorough 8) scenarios in which the first token.ping / token.getkey(key) / token.sign(key) reached does not return until no thread can take a step any more, on one token or with a second token configured; and server.numworkers in {1,2} set on the server with its in-process token, with requests that cannot be served - they fail while the key and its certificates are prepared: sigtype pgp for a key without a PGP certificate, a key whose certificate file does not exist - before and among requests that can: numworkers refused requests then two valid ones on one connection, and two threads each sending a refused request followed by a valid one (thorough also: two valid requests overlapping with numworkers 1, three threads with numworkers 2)): every interleaving with <=2 preemptions (thorough 3 for 2-thread scenarios) over the hooked mutex/token/audit-file operations (every system call on the audit file is a scheduling point: open, write, close and - should the sink use them - seek, stat, read/pread, pwrite, truncate, or a callback on the raw descriptor); oracle per request = result in isolation (patch applied to that request's body verifies, names its key, digest and description; a refused request is refused with the same status and body; a request that is still inside the server when no thread can take a step and nothing of the environment is outstanding is reported as never answered - the harness then ends its context, as a client hanging up would, so that the execution ends; listings, key info, home byte-equal), audit lines = successful signs with the signing client's name, and in the stall scenarios: a request that needs no token (health, list_keys, home) or only the other token must not be among the requests that are still waiting when nothing but the stalled token operation is left to finish; (a') every history of <=2 (thorough <=3, without signing at depth 3) requests from the alphabet {list_keys, key info of a key granted to r+rel, key info of a key granted to night only, sign with a key granted to r+rel+night} x 6 clients (the five role sets and a certificate the server does not know) issued sequentially against one server, same oracle; (b) free-running -race pass over all scenarios' thread bodies; (c) daemon.Close released at 2 hooked points of an in-flight request on a real loopback daemon. distinct_nontrivial = schedules with at least one preemption, and histories with at least two different clients")
 	run.Assume("a stalled token operation is modelled at its extreme: it outlasts everything else that can happen (the scheduler releases it only when no thread is enabled); intermediate durations are not enumerated separately")
+	run.Assume("the audit file is an in-memory file (verif/shim/vos) emulating *os.File system call by system call (O_APPEND: the kernel positions and writes atomically; otherwise the descriptor's own offset; Seek/ReadAt/WriteAt/Stat/Truncate; SyscallConn/Fd give the descriptor of a real file mirroring it, one callback = one atomic step)")
 	run.Assume("clients are told apart by certificate fingerprint (config clients.<fingerprint>); clients authenticated through a CA certificate or a policy server are not enumerated")
 	run.Assume("net/http's own goroutines are not under the scheduler; the shutdown clause is explored only at the handler's hooked points")
 	run.Assume("the 'no data race' clause rests on the race detector over free-running executions (not exhaustive)")
